@@ -45,6 +45,78 @@ Definition obs_af (base : nat) (buf : list N) : res (list N) :=
       ++ enc_rr (fun '(off, d) => [n2 (base + off); n2 (length d)]) tpd
       ++ eo).
 
+(* ---- C12 observation: header fields, payload range, and an adaptation-field *range fingerprint*.
+   AdaptationField has no accessor for its raw bytes, so its range is observed by probing: the
+   adaptation-field area of a copy of the packet is overwritten with "private data only, length k"
+   and the result of transport_private_data() obtained through the packet is compared with the
+   result obtained from stand-alone AdaptationFields of candidate lengths.  Both sides of each
+   comparison go through the same accessor, so the fingerprint depends on the range only. ---- *)
+Fixpoint set_nth (l : list N) (i : nat) (v : N) : list N :=
+  match l, i with
+  | [], _ => []
+  | _ :: r, O => v :: r
+  | x :: r, S j => x :: set_nth r j v
+  end.
+
+Definition tpd_abs (base : nat) (a : list N) : res (list N) :=
+  do r <- af_transport_private_data a;
+  Ok (enc_rr (fun '(off, d) => [n2 (base + off); n2 (length d)]) r).
+
+Definition sat_sub (a b : N) : N := if b <=? a then a - b else 0.
+
+Definition fp_probes (L : N) : list N := [sat_sub L 2; sat_sub L 1; 181; 182].
+Definition fp_cands (L : N) : list nat :=
+  filter (fun n => Nat.leb 1 n && Nat.leb n 183)
+         [N.to_nat (sat_sub L 1); N.to_nat L; S (N.to_nat L); 182%nat; 183%nat].
+
+Fixpoint fp_cmp (p' : pkt) (via : list N) (cands : list nat) : res (list N) :=
+  match cands with
+  | [] => Ok []
+  | n :: r =>
+      do s <- slice p' 5 (5 + n) 160;
+      do a <- af_new s;
+      do t <- tpd_abs 5 a;
+      do rest <- fp_cmp p' via r;
+      Ok (b2n (if list_eq_dec N.eq_dec t via then true else false) :: rest)
+  end.
+
+Fixpoint fp_run (p : pkt) (L : N) (probes : list N) : res (list N) :=
+  match probes with
+  | [] => Ok []
+  | k :: r =>
+      let p' := set_nth (set_nth p 5 2) 6 k in
+      do af <- pkt_adaptation_field p';
+      do here <- match af with
+                 | None => Ok [0]
+                 | Some (off, a) => do via <- tpd_abs off a; do c <- fp_cmp p' via (fp_cands L); Ok (1 :: c)
+                 end;
+      do rest <- fp_run p L r;
+      Ok (here ++ rest)
+  end.
+
+(* observation of a Packet for C12 *)
+Definition obs_packet_c12 (p : pkt) : res (list N) :=
+  do tei <- pkt_transport_error_indicator p;
+  do pusi <- pkt_payload_unit_start_indicator p;
+  do prio <- pkt_transport_priority p;
+  do pid <- pkt_pid p;
+  do tsc <- pkt_transport_scrambling_control p;
+  do ac <- pkt_adaptation_control p;
+  do cc <- pkt_continuity_counter p;
+  do af <- pkt_adaptation_field p;
+  do pl <- pkt_payload p;
+  do b4 <- idx p 4 161;
+  do fp <- fp_run p b4 (fp_probes b4);
+  Ok ([b2n tei; b2n pusi; b2n prio; pid; tsc_scheme tsc; b2n (tsc_is_scrambled tsc);
+       b2n (ac_has_adaptation_field ac); b2n (ac_has_payload ac); cc]
+      ++ match pl with Some (off, d) => [1; n2 off; n2 (length d)] | None => [0] end
+      ++ [match af with Some _ => 1 | None => 0 end] ++ fp).
+
+Definition run_packet_c12 (buf : list N) : option (list N) :=
+  match (do o <- pkt_try_new buf;
+         match o with Some p => do x <- obs_packet_c12 p; Ok (1 :: x) | None => Ok [0] end) with
+  | Ok l => Some l | Panic _ => None end.
+
 (* observation of a Packet *)
 Definition obs_packet (p : pkt) : res (list N) :=
   do tei <- pkt_transport_error_indicator p;
